@@ -57,7 +57,7 @@ CLAIMED.update({
          "DESIGN.md §4 C13"),
  "C14": ("round-trip and injection oracles over grammar-derived query texts and programmatic trees, with goflow's own printers and escaping",
          "Runtime monitoring: every accepted query's String() re-parses to a structurally identical tree (4 configurations: with/without resolver x redaction policy); programmatic trees with hostile values survive Stringify+ParseQuery; a value substituted with ContactQueryEscaping at any position of a multi-condition template becomes exactly one literal. Held on the executions observed only.",
-         "Trusts: the public accessors of contactql nodes for structural comparison; the engine-level observation through start_session/send_broadcast is not built (the escaping function itself is what those actions call).",
+         "Trusts: the public accessors of contactql nodes for structural comparison. Engine level: contact_query templates are evaluated through Evaluator.Template(…, ContactQueryEscaping) over contexts with values of every type, and through start_session / send_broadcast in real flows; the evaluated query must equal the template's skeleton with one literal per expression.",
          "DESIGN.md §4 C14"),
  "C15": ("crash sanitizer + metamorphic oracles (AND/OR compositionality, Simplify, presence, trichotomy, independent calendar-day reference) over generated queries x contacts",
          "Runtime monitoring: EvaluateQuery never panics; eval(a AND b)==eval(a)&&eval(b) and likewise for OR, n-ary and nested forms evaluated through their own text; Simplify keeps the result; = \"\" / != \"\" test absence/presence; for present number/date values exactly one of <,=,> holds with <=,>=,!= consistent; date results equal an independent calendar-day comparison. Held on the executions observed only.",
@@ -96,7 +96,7 @@ CLAIMED.update({
          "DESIGN.md §4 C19"),
  "C20": ("offline checker over the recorded sprint log against Flow.Inspect(): stored results, exits taken out of waits and fixed asset references of executed actions/templates",
          "Runtime monitoring: for every run of every generated and directed execution, every stored result's key (and category when fixed) must be declared by the inspection, every exit through which a resume left a wait must be a waiting exit, and every fixed reference of an executed action and every global/field named by a template of a visited node (base language and the language used) must be a dependency, using an independent reference model of which properties hold references. Held on the executions observed only.",
-         "Trusts: the harness's own per-action table of reference-holding properties and template scanner; which templates ran is derived from visited nodes plus the definition (no hook).",
+         "Trusts: the harness's own per-action table of reference-holding properties and template scanner; which templates a run evaluated is observed through the one guarded hook (flows/runs/observe_verif.go, build tag verif) and, independently, derived from visited nodes plus the definition.",
          "DESIGN.md §4 C20"),
 })
 
@@ -133,12 +133,12 @@ def main():
         "setup_cmd": "./scripts/setup.sh",
         "hooks": {
             "guard": "verif",
-            "enable": "go build -tags verif (all checker builds use the tag; see ./check)",
+            "enable": "go build -tags verif (all checker builds use the tag; see ./check). One hook: flows/runs/observe_verif.go (template observer used by C20); with the tag off flows/runs/observe_noverif.go makes it a no-op",
             "baseline_off_cmd": "./scripts/baseline.sh",
             "source_commits": hook_commits,
             "add_only": True,
         },
-        "engines": [{"name": "vcheck", "path": "/verif/cmd/vcheck", "serves_properties": sorted(CLAIMED), "kind_free_text": "Go orchestrator + child-process workers: generators, scenario driver, runtime monitors, race-detector rounds; rebuilt from /repo's working tree on every invocation"}],
+        "engines": [{"name": "vcheck", "path": "/verif/cmd (one main per package group: vcprops, vc07, vc11, vc13, vc14, vc16, vc17, vc19, vc20; vcheck imports all)", "serves_properties": sorted(CLAIMED), "kind_free_text": "Go orchestrator + child-process workers: generators, scenario driver, runtime monitors, race-detector rounds; rebuilt from /repo's working tree on every invocation"}],
         "checks": checks,
         "not_applicable": na,
         "notes": "Technique family: runtime monitoring and sanitizers. Every verdict is 'held on the executions observed'. Exit 0 held / 1 VIOLATION / 2 INCONCLUSIVE. Known findings: /verif/known_findings.json. VERIF_SEED selects the generated case list.",
